@@ -12,9 +12,9 @@ import (
 func timedName(c timed.Cfg) string {
 	switch c.Kind {
 	case "emit":
-		return fmt.Sprintf("emit cap=%d freq=%d mode=%s mask=%b gaps=%v cancel-at=%d drain=%v%s", c.Cap, c.Freq, c.Mode, c.Mask, c.ConsGaps, c.CancelAt, c.Drain, map[bool]string{true: " errors-unread"}[c.NoErr])
+		return fmt.Sprintf("emit cap=%d freq=%d mode=%s mask=%b gaps=%v cancel-at=%d drain=%v%s%s", c.Cap, c.Freq, c.Mode, c.Mask, c.ConsGaps, c.CancelAt, c.Drain, map[bool]string{true: " errors-unread"}[c.NoErr], map[bool]string{true: " context-cancelled-before-the-call"}[c.PreCancel])
 	case "unfold":
-		return fmt.Sprintf("unfold cap=%d step=%s gaps=%v cancel-at=%d drain=%v", c.Cap, c.Step, c.ConsGaps, c.CancelAt, c.Drain)
+		return fmt.Sprintf("unfold cap=%d step=%s gaps=%v cancel-at=%d drain=%v%s%s", c.Cap, c.Step, c.ConsGaps, c.CancelAt, c.Drain, map[bool]string{true: " errors-unread"}[c.NoErr], map[bool]string{true: " context-cancelled-before-the-call"}[c.PreCancel])
 	}
 	return fmt.Sprintf("throttle ops=%d interval=%d cap=%d k=%d prod-gap=%d gaps=%v cancel-at=%d%s", c.Ops, c.Interval, c.Cap, c.K, c.ProdGap, c.ConsGaps, c.CancelAt, map[bool]string{true: fmt.Sprintf(" deadline=%d", c.Timeout)}[c.Timeout > 0])
 }
@@ -172,6 +172,18 @@ func c11Scenarios(tier string) []e1lib.Scenario {
 				add(timed.Cfg{Kind: "unfold", Cap: cp, Step: "inc", ConsGaps: gaps, CancelAt: -1, Drain: true})
 				add(timed.Cfg{Kind: "emit", Cap: cp, Freq: 1, Mode: "pure", ConsGaps: gaps, CancelAt: -1, Drain: true})
 				add(timed.Cfg{Kind: "emit", Cap: cp, Freq: 1, Mode: "try", Mask: 0b0110, ConsGaps: gaps, CancelAt: -1, Drain: true})
+			}
+		}
+	}
+	// the context is cancelled before the generator is even created, and nobody receives: both channels still close and
+	// no goroutine stays (with and without a reader of the error channel)
+	for cp := 0; cp <= 2; cp++ {
+		for _, noerr := range []bool{false, true} {
+			add(timed.Cfg{Kind: "unfold", Cap: cp, Step: "inc", CancelAt: -1, PreCancel: true, NoErr: noerr})
+			for _, f := range []int{0, 1, 3} {
+				add(timed.Cfg{Kind: "emit", Cap: cp, Freq: f, Mode: "pure", CancelAt: -1, PreCancel: true, NoErr: noerr})
+				add(timed.Cfg{Kind: "emit", Cap: cp, Freq: f, Mode: "try", Mask: 0b0011, CancelAt: -1, PreCancel: true, NoErr: noerr})
+				add(timed.Cfg{Kind: "emit", Cap: cp, Freq: f, Mode: "lift", Mask: 0b0001, CancelAt: -1, PreCancel: true, NoErr: noerr})
 			}
 		}
 	}
